@@ -113,6 +113,8 @@ func FileUtilsFlush(path string, offset int64, data []byte) (int64, error) {
 	return int64(n), nil
 }
 
+// FileUtilsRead reads the record at offset. It returns io.EOF if the file ends at offset, and ErrRecordBroken
+// if the record is not complete or its check sum does not match (the tail of a file whose last write was torn)
 func FileUtilsRead(file *os.File, offset int64) (*RecordHead, *RecordBody, error) {
 	_, err := file.Seek(offset, 0)
 	if err != nil {
@@ -120,25 +122,42 @@ func FileUtilsRead(file *os.File, offset int64) (*RecordHead, *RecordBody, error
 	}
 
 	heaBuf := make([]byte, RecordHeadLength)
-	_, err = file.Read(heaBuf)
+	_, err = io.ReadFull(file, heaBuf)
+	if err == io.EOF {
+		return nil, nil, io.EOF
+	}
+	if err == io.ErrUnexpectedEOF {
+		return nil, nil, ErrRecordBroken
+	}
 	if err != nil {
 		return nil, nil, err
 	}
 
 	var head RecordHead
 	err = binary.Read(bytes.NewBuffer(heaBuf), binary.LittleEndian, &head)
-	if err == io.EOF {
-		return nil, nil, nil
-	}
-
 	if err != nil {
 		return nil, nil, err
+	}
+
+	// a torn head may announce any length
+	info, err := file.Stat()
+	if err != nil {
+		return nil, nil, err
+	}
+	if offset+int64(RecordHeadLength)+int64(head.Len) > info.Size() {
+		return nil, nil, ErrRecordBroken
 	}
 
 	bodyBuf := make([]byte, head.Len)
-	_, err = file.Read(bodyBuf)
+	_, err = io.ReadFull(file, bodyBuf)
+	if err == io.EOF || err == io.ErrUnexpectedEOF {
+		return nil, nil, ErrRecordBroken
+	}
 	if err != nil {
 		return nil, nil, err
+	}
+	if CheckSum(bodyBuf) != head.Crc {
+		return nil, nil, ErrRecordBroken
 	}
 
 	var body RecordBody
